@@ -135,7 +135,7 @@ def solver_equiv_case(case):
     idx, trace = case
     from vf.harness.c03_gen import gen_blocks
     name, block = gen_blocks()[idx]
-    D = Driver(timeout_ms=10000, max_paths=400, max_seconds=60)
+    D = Driver(timeout_ms=10000, max_paths=3000, max_seconds=200)
     g = [z3.Real('g1'), z3.Real('g2')]
     for v in g:
         D.assume(v >= -100, v <= 100)
